@@ -650,7 +650,16 @@ func factsAt(b *ssa.BasicBlock) []Fact {
 var factCache = map[*ssa.BasicBlock][]Fact{}
 var factBusy = map[*ssa.BasicBlock]bool{}
 
+var baseBusy = map[*ssa.BasicBlock]bool{}
+
 func baseFactsAt(b *ssa.BasicBlock) []Fact {
+	// a loop-carried boolean phi leads the phi decomposition back to the block it started from: nothing more is known
+	// there than what the outer computation will find (fewer facts is the conservative answer)
+	if baseBusy[b] {
+		return nil
+	}
+	baseBusy[b] = true
+	defer delete(baseBusy, b)
 	var out []Fact
 	for d := b.Idom(); d != nil; d = d.Idom() {
 		out = append(out, factsFromIf(d, b)...)
